@@ -93,4 +93,34 @@ structure AutoImpl where
   otherBounds : List String
   deriving DecidableEq, Repr, Inhabited
 
+/-- Flags of an `mmap` call that matter for what backs the pages. -/
+inductive MapFlag | priv | shared | anon | fixed | other
+  deriving DecidableEq, Repr, Inhabited
+
+/-- One `mmap` call of `vmem_helper::new`.  Addresses and lengths are in units of
+`size = size_of_val(value)` (the byte length of one view), relative to the first mapping. -/
+structure MmapCall where
+  fixedAt : Option Nat     -- `none`: address `null` (the kernel picks; this is the base); `some k`: base + k·size
+  lenMul : Nat             -- length = lenMul · size
+  flags : List MapFlag
+  hasFd : Bool             -- `false`: fd = -1
+  deriving DecidableEq, Repr, Inhabited
+
+inductive CopyEnd | source | fresh
+  deriving DecidableEq, Repr, Inhabited
+
+/-- One block copy of `vmem_helper::new` (direction as the callee sees it). -/
+structure CopyCall where
+  dst : CopyEnd
+  src : CopyEnd
+  lenMul : Nat
+  deriving DecidableEq, Repr, Inhabited
+
+/-- The length argument of `munmap`: `const · len^lenPow · size_of::<T>()^sizePow` bytes. -/
+structure MunmapLen where
+  const : Nat
+  lenPow : Nat
+  sizePow : Nat
+  deriving DecidableEq, Repr, Inhabited
+
 end MRB
